@@ -19,7 +19,35 @@ def on_alarm(signum, frame):
     raise Hang()
 
 
+def start_line_probe():
+    """development aid (CUV_COVER=<dir>): record which lines of cardutil/ the implementation run executes, so that code
+    no generated case reaches can be found; never active in a registered check"""
+    outdir = os.environ.get('CUV_COVER')
+    if not outdir or not hasattr(sys, 'monitoring'):
+        return
+    import atexit
+    mon = sys.monitoring
+    tool = mon.COVERAGE_ID
+    mon.use_tool_id(tool, 'cuv')
+    seen = {}
+
+    def on_line(code, line):
+        fn = code.co_filename
+        if '/cardutil/' in fn:
+            seen.setdefault(fn, set()).add(line)
+        return mon.DISABLE
+    mon.register_callback(tool, mon.events.LINE, on_line)
+    mon.set_events(tool, mon.events.LINE)
+
+    def dump():
+        os.makedirs(outdir, exist_ok=True)
+        with open(os.path.join(outdir, 'lines-%d.json' % os.getpid()), 'w') as f:
+            json.dump({k: sorted(v) for k, v in seen.items()}, f)
+    atexit.register(dump)
+
+
 def main():
+    start_line_probe()
     mod = importlib.import_module(sys.argv[1])
     cases = json.load(open(sys.argv[2]))
     timeout = float(sys.argv[4])
